@@ -730,6 +730,12 @@ func (x *Exec) VerifyFunc(fn *ssa.Function, fc *FuncContract, name string) (obls
 		v := x.fresh(p.Name(), p.Type())
 		x.assumeTypeInv(st, v)
 		x.assumeAllocated(st, v)
+		if _, isSl := p.Type().Underlying().(*types.Slice); isSl {
+			// A slice parameter is re-based to offset 0: the offset is unobservable unless
+			// another accessible slice overlaps the same array at a different offset
+			// (modelling assumption: slice parameters do not partially overlap).
+			v = &Value{T: app("mk_slice", app("s_arr", v.T), "0", app("s_len", v.T), app("s_cap", v.T)), Typ: v.Typ}
+		}
 		fr.Regs[p] = v
 		fr.Params[p.Name()] = v
 		if _, ok := p.Type().Underlying().(*types.Pointer); ok {
